@@ -189,7 +189,7 @@ def run(rep, tier, seed):
     zoo = models.zoo()
     names = list(zoo)
     if tier == "quick":
-        keep = ["ae_basic", "dae_ts", "fdae_heat", "dae_ts_index", "ae_consts", "ae_trigger", "ae_trigger_smooth", "ae_trigger_builtins"]
+        keep = ["ae_basic", "dae_ts", "fdae_heat", "dae_ts_index", "ae_consts", "ae_trigger", "ae_trigger_smooth", "ae_trigger_builtins", "ae_trigger_subname"]
         extra = [n for n in names if n not in keep]
         names = keep + list(rng.permutation(extra)[:1])
     tmp = tempfile.mkdtemp(prefix="c03_")
